@@ -50,10 +50,12 @@ impl PartialEq for DFA {
             inputs: other_inputs,
             subdfas: _,
         } = other;
+        // Transitions refer to inputs by their index, so the order of inputs matters
+        // (IndexSet's == ignores it).
         self_starting_state == other_starting_state
             && self_transitions == other_transitions
             && self_accepting_states == other_accepting_states
-            && self_inputs == other_inputs
+            && self_inputs.elems().eq(other_inputs.elems())
     }
 }
 
